@@ -162,6 +162,23 @@ def generate(rng, tier):
         sc = rng.choice([1.0, 1e-3, 1e3])
         c = ' '.join(H(rng.uniform(-5, 5) * sc, rng.uniform(-5, 5) * sc) for _ in range(4))
         yield arclen_work(f'cubic.arclen_work {c} {H(sc * 10.0 ** rng.uniform(-12, -3))}', 'arclen-work')
+    # every coincidence pattern of the control points of one cubic / quadratic over three points (A = start): 27 + 9 patterns, each stroked (dashed and
+    # undashed), flattened, measured and simplified
+    for sc in (1.0, 1e3):
+        A, B, Cc = (1.0 * sc, 1.0 * sc), (11.0 * sc, 6.0 * sc), (3.0 * sc, -4.0 * sc)
+        pats = [('C',) + t for t in itertools.product((A, B, Cc), repeat=3)] + [('Q',) + t for t in itertools.product((A, B, Cc), repeat=2)]
+        for k, el in enumerate(pats):
+            sp = f'M {H(*A)} ' + el[0] + ' ' + ' '.join(H(*q) for q in el[1:])
+            tolp = sc * rng.choice([1e-3, 1e-2, 0.1])
+            for dashed in (False, True):
+                patd = [sc * 2.0, sc * 0.7] if dashed else []
+                yield total(f'path.stroke {H(2.0 * sc)} {k % 3} {(k // 3) % 3} {H(4.0)} {H(0.3 * sc)} {len(patd)} {H(*patd)} {H(tolp)} {sp}'.replace('  ', ' '), 'stroke-coincidence-patterns')
+            yield total(f'path.flatten {H(tolp)} {sp}', 'coincidence-patterns')
+            yield total(f'path.simplify {H(tolp)} {k % 2} {sp} L {H(*Cc)}', 'coincidence-patterns')
+            yield total(f'path.perimeter {H(tolp * 1e-3)} {sp}', 'coincidence-patterns')
+            seg = f'{el[0]} {H(*A)} ' + ' '.join(H(*q) for q in el[1:])
+            yield total(f'seg.nearest {seg} {H(2.0 * sc, 2.0 * sc)} {H(tolp * 1e-3)}', 'coincidence-patterns')
+            yield total(f'work.probe {seg} {H(tolp * 1e-3)}', 'coincidence-patterns')
     # shapes of moderate extent far from the origin, fine absolute tolerances and widths (coordinates ~1e6 are inside the quantifier, and so are
     # tolerances of 1e-3): retracted handles, coincident control points, collinear stretches
     for _ in range(n):
